@@ -1,6 +1,100 @@
+(* Properties/C18.v — the generated Lua binding is call-equivalent to the wrapped library
+   (dispatch logic; the meaning of lua_to*/lua_push* templates is validated by execution). *)
 From Coq Require Import List NArith Bool Arith.
-From Shroud Require Import Model.LuaDispatch.
+From Shroud Require Import Model.LuaDispatch Proof.LuaDispatch.
 Import ListNotations.
-Example C18_placeholder : dispatch lay_function [{| f_params := [{| p_tag := LNum; p_default := false |}]; f_result := true |}] [LNum]
-  = LCalls [({| c_fun := 0; c_in := [{| p_tag := LNum; p_default := false |}]; c_nres := 1 |}, [1])] 1.
-Proof. reflexivity. Qed.
+
+(* Every call variation the wrapper can make is an overload with a prefix of its parameters supplied,
+   the first omitted parameter (hence, for C++, all omitted ones) having a default. *)
+Theorem C18_variations_are_default_prefixes : forall ovs c, In c (all_calls ovs) ->
+  exists f, nth_error ovs (c_fun c) = Some f /\
+            exists k, c_in c = firstn k (f_params f) /\ k <= length (f_params f) /\
+            (k < length (f_params f) -> exists p, nth_error (f_params f) k = Some p /\ p_default p = true).
+Proof. exact all_calls_spec. Qed.
+Print Assumptions C18_variations_are_default_prefixes.
+
+(* Selection is sound: the selected variation takes exactly the supplied number of arguments and its
+   parameter types are the Lua types found on the stack. *)
+Theorem C18_selection_sound : forall lay ovs stack c ix nres, multi ovs -> length stack - count_off lay <> 0 ->
+  dispatch lay ovs stack = LCalls [(c, ix)] nres ->
+  In c (all_calls ovs) /\ length (c_in c) = length stack - count_off lay /\
+  types_match lay stack 0 (c_in c) = true /\ ix = idxs lay (length (c_in c)) /\ nres = c_nres c.
+Proof. exact select_sound. Qed.
+Print Assumptions C18_selection_sound.
+
+(* Selection is complete: the first matching variation in declaration order is taken ... *)
+Theorem C18_first_match_selected : forall lay ovs stack c ix nres, multi ovs -> length stack - count_off lay <> 0 ->
+  dispatch lay ovs stack = LCalls [(c, ix)] nres ->
+  exists before after,
+    filter (fun c => Nat.eqb (length (c_in c)) (length stack - count_off lay)) (all_calls ovs) = before ++ c :: after /\
+    forallb (fun y => negb (types_match lay stack 0 (c_in y))) before = true.
+Proof. exact select_first. Qed.
+Print Assumptions C18_first_match_selected.
+
+(* ... and a stack matching no variation raises a Lua error (wrong types, or wrong count). *)
+Theorem C18_no_match_is_error : forall lay ovs stack, multi ovs ->
+  (forall c, In c (all_calls ovs) -> length (c_in c) = length stack - count_off lay ->
+             types_match lay stack 0 (c_in c) = false) ->
+  length stack - count_off lay <> 0 -> dispatch lay ovs stack = LError.
+Proof. exact select_none. Qed.
+Print Assumptions C18_no_match_is_error.
+
+Theorem C18_wrong_count_is_error : forall lay ovs stack, multi ovs ->
+  (forall c, In c (all_calls ovs) -> length (c_in c) <> length stack - count_off lay) ->
+  dispatch lay ovs stack = LError.
+Proof. exact count_mismatch_error. Qed.
+Print Assumptions C18_wrong_count_is_error.
+
+(* Values: argument k of the selected call is read from the very stack slot whose type was checked,
+   the k-th slot after the object (methods) / from the bottom (functions, constructors). *)
+Theorem C18_values_from_checked_slots : forall lay ovs stack c ix nres k p, consistent lay -> multi ovs ->
+  length stack - count_off lay <> 0 ->
+  dispatch lay ovs stack = LCalls [(c, ix)] nres ->
+  nth_error (c_in c) k = Some p ->
+  exists i, nth_error ix k = Some i /\ i = first_arg lay + k /\
+            nth_error stack (i - 1) = Some (p_tag p) /\ i - 1 = type_off lay + k.
+Proof. exact values_from_checked_slots. Qed.
+Print Assumptions C18_values_from_checked_slots.
+
+Theorem C18_function_layout_consistent : consistent lay_function.
+Proof. exact lay_function_consistent. Qed.
+Theorem C18_method_layout_consistent : consistent lay_method.
+Proof. exact lay_method_consistent. Qed.
+
+(* Result count — PARTIAL: it is the result count of the FIRST overload for every variation ... *)
+Theorem C18_result_count_partial : forall ovs c f0 r, ovs = f0 :: r -> In c (all_calls ovs) ->
+  c_nres c = if f_result f0 then 1 else 0.
+Proof. exact nres_is_first_overload. Qed.
+Print Assumptions C18_result_count_partial.
+
+(* ... so the full statement (each variation reports its own overload's result) is refuted for an
+   overload set mixing void and value-returning functions: *)
+Definition pN := {| p_tag := LNum; p_default := false |}.
+Definition pS := {| p_tag := LStr; p_default := false |}.
+Theorem C18_result_count_refuted : exists ovs stack c ix nres f,
+  dispatch lay_function ovs stack = LCalls [(c, ix)] nres /\ nth_error ovs (c_fun c) = Some f /\
+  f_result f = true /\ nres = 0.
+Proof.
+  exists [{| f_params := [pN]; f_result := false |}; {| f_params := [pS]; f_result := true |}], [LStr].
+  eexists. eexists. eexists. eexists. split; [vm_compute; reflexivity|]. split; [reflexivity|]. split; reflexivity.
+Qed.
+Print Assumptions C18_result_count_refuted.
+
+(* A wrapper with a single variation performs no check at all: "error on mismatch" is refuted there. *)
+Theorem C18_single_variation_unchecked_refuted : exists ovs stack cs nres,
+  ~ multi ovs /\ dispatch lay_function ovs stack = LCalls cs nres /\
+  stack = [LNum; LNum] /\ ovs = [{| f_params := [pS]; f_result := true |}].
+Proof. eexists. eexists. eexists. eexists. split; [|split; [|split; reflexivity]]; [intro H; exact H | reflexivity]. Qed.
+Print Assumptions C18_single_variation_unchecked_refuted.
+
+(* Non-vacuity: an overloaded, defaulted method *)
+Example C18_example_method :
+  let ovs := [{| f_params := [pN; {| p_tag := LBool; p_default := true |}]; f_result := true |};
+              {| f_params := [pS]; f_result := true |}] in
+  multi ovs /\
+  dispatch lay_method ovs [LUser; LNum] = LCalls [({| c_fun := 0; c_in := [pN]; c_nres := 1 |}, [2])] 1 /\
+  dispatch lay_method ovs [LUser; LStr] = LCalls [({| c_fun := 1; c_in := [pS]; c_nres := 1 |}, [2])] 1 /\
+  dispatch lay_method ovs [LUser; LNum; LBool] =
+    LCalls [({| c_fun := 0; c_in := [pN; {| p_tag := LBool; p_default := true |}]; c_nres := 1 |}, [2; 3])] 1 /\
+  dispatch lay_method ovs [LUser; LBool] = LError /\ dispatch lay_method ovs [LUser] = LError.
+Proof. vm_compute. repeat split; exact I. Qed.
